@@ -42,7 +42,9 @@ class Lock:
 
 def sh(cmd, cwd=None, timeout=1800, env=None):
     e = dict(os.environ)
-    e.update({"CARGO_NET_OFFLINE": "true"})
+    scratch = os.path.join(CACHE, "scratch")
+    os.makedirs(scratch, exist_ok=True)
+    e.update({"CARGO_NET_OFFLINE": "true", "VERIF_SCRATCH": scratch})
     if env:
         e.update(env)
     try:
